@@ -259,6 +259,24 @@ def run(ctx, rep) -> None:
             rep.check(verdict is True, "C16.R4", "every key inherited from the ancestors is recorded again at each planning", detail if verdict is True else
                       detail + ": a key inherited at an earlier planning must stay recorded (it is in stage.context by now), otherwise from the third planning on it is overlaid as an own value and the stage keeps seeing an old iteration's value",
                       ps.file, rec_assign[0].lineno, disc="inherited-recorded")
+    # a value the jump sets ON the target is the target's own from then on: the jump must take those keys out of the record of
+    # inherited keys, otherwise the next planning replaces the jump's value by the ancestor's
+    if rec_key is not None:
+        jh = prog.func("stabilize.handlers.jump_to_stage.handler", "JumpToStageHandler._handle_with_retry.on_stage").node
+        mts = [g for g in ast.walk(jh) if isinstance(g, ast.FunctionDef) and g.name == "mutate_target"]
+        okp = False
+        if mts:
+            upd_param = None
+            for c in _calls(mts[0], "update"):
+                if norm(c.func).endswith(".context.update") and c.args:
+                    upd_param = norm(c.args[0])
+            for a in ast.walk(mts[0]):
+                if isinstance(a, ast.Assign) and norm(a.targets[0]).replace("'", '"').endswith(f'.context["{rec_key}"]') and isinstance(a.value, (ast.ListComp, ast.SetComp)) and upd_param is not None:
+                    conds = [norm(c) for g in a.value.generators for c in g.ifs]
+                    okp = any(c == f"{norm(a.value.generators[0].target)} not in {upd_param}" for c in conds)
+        rep.check(okp, "C16.R4", "keys a jump sets on its target stop counting as inherited", f"mutate_target prunes `{rec_key}` by the keys it writes" if okp else
+                  f"mutate_target writes the jump's keys onto the re-armed target but leaves them listed in `{rec_key}`: at the next planning a jump_context key that an ancestor also outputs is replaced by the ancestor's value - "
+                  "the value set on the stage itself must win", "src/stabilize/handlers/jump_to_stage/handler.py", mts[0].lineno if mts else jh.lineno, disc="jump-keys-own")
     rs = prog.func("stabilize.handlers.jump_to_stage.reset", "reset_stage_for_retry").node
     rep.check(any(isinstance(s, ast.Assign) and norm(s.targets[0]) == "stage.outputs" and norm(s.value) in ("{}", "dict()") for s in rs.body), "C16.R4", "re-arm clears the stage's published outputs", "stage.outputs = {}", "src/stabilize/handlers/jump_to_stage/reset.py", rs.lineno, disc="reset-outputs")
 
